@@ -1335,6 +1335,34 @@ func (e *Explorer) assume(s *pstate, c *T, pol bool, pos token.Pos) bool {
 			return true
 		}
 	}
+	// membership in a constant bit set:  set & (1 << x) == 0  with x of an enumerated type
+	if c.Op == "eq" && c.A[1].IsConstVal(0) && c.A[0].Op == "bin:&" && len(c.A[0].A) == 2 {
+		m, sh := c.A[0].A[0], c.A[0].A[1]
+		if !m.IsConst() {
+			m, sh = sh, m
+		}
+		if m.IsConst() && sh.Op == "bin:<<" && len(sh.A) == 2 && sh.A[0].IsConstVal(1) {
+			x := stripConv(sh.A[1])
+			if dom, ok := e.W.enumDomain(x.Ty); ok && !x.IsConst() {
+				key := x.Key()
+				cur, have := s.sets[key]
+				if !have {
+					cur = dom
+				}
+				mask := uint64(m.C)
+				nw := cur &^ mask // "== 0" holds: not a member
+				if !pol {
+					nw = cur & mask
+				}
+				if nw == 0 {
+					return false
+				}
+				s.sets[key], s.setT[key] = nw, x
+				s.conds = append(s.conds, Cond{Atom: c, Val: pol, Pos: pos, Block: s.curBlk})
+				return true
+			}
+		}
+	}
 	// an ordering test between a value of an enumerated type and a constant narrows its set
 	if c.Op == "lt" && len(c.A) == 2 {
 		x, k, xLeft := stripConv(c.A[0]), c.A[1], true
